@@ -545,12 +545,20 @@ def rule_r8(chk, p, t):
         else:
             r.violation(init.qualname + ":dt_step", f"clock-step-stored:{unparse(v)[:60]}", f"the clock stores dt_step as `{unparse(v)[:80]}`, not the step it was given", init.loc(asg[0]))
         tt = ck.methods.get("ticToc")
-        augs = [n for n in walk_no_nested(tt.node) if isinstance(n, ast.AugAssign) and unparse(n.target) == "self.time"]
-        dflt = [n for n in augs if unparse(n.value) == "self.dt_step" and isinstance(n.op, ast.Add)]
-        if len(dflt) == 1:
-            r.ok(tt.qualname, "time += dt_step", tt.loc(dflt[0]))
+        from rsa.terms import NotEvaluable, canon, falsy_param_states, path_states
+
+        prm = tt.params[1] if len(tt.params) > 1 else None
+        try:
+            states = path_states(tt)
+        except NotEvaluable as e:
+            raise Undecided(f"ticToc: {e}", tt.node)
+        states = falsy_param_states(states, prm) if prm else states
+        want = canon(ast.parse("self.time + self.dt_step", mode="eval").body)
+        got = [st["env"].get("self.time") for st in states]
+        if states and all(g is not None and canon(g) == want for g in got):
+            r.ok(tt.qualname, f"time <- time + dt_step on the default call ({len(states)} path(s))", tt.loc())
         else:
-            r.violation(tt.qualname, "tick:" + ";".join(unparse(n)[:40] for n in augs), "ScenarioClock.ticToc() without an argument does not advance the time by exactly dt_step", tt.loc())
+            r.violation(tt.qualname, "tick:" + ";".join(unparse(g)[:40] if g is not None else "unchanged" for g in got), "ScenarioClock.ticToc() without an argument does not advance the time by exactly dt_step", tt.loc())
 
     r.guard(init.qualname, f3)
     ag = p.func("Agent.__init__")
